@@ -6,9 +6,10 @@ from props.common import *
 from props import c17_util as U
 import vlib, os
 
-FINISH = dict(level='proof', technique='Coq theorems about the executable half-aggregation model (Properties_C17.v: incremental aggregation over any split = one-shot, exact length, rejection clauses) + differential correspondence of the model with the C implementation built from the working tree, on secp256k1 and on the EXHAUSTIVE_TEST_ORDER=13 group',
-              trusted=TRUSTED_COMMON + ['completeness (aggregate of valid signatures verifies) needs the group law and is NOT proved here; it is observed on every honest case of the correspondence',
-                                        'order-13 correspondence only feeds points of the order-13 subgroup (outside it the result of secp256k1_ecmult depends on the multiplication algorithm)'])
+FINISH = dict(level='proof', technique='Coq theorems about the executable half-aggregation model (Properties_C17.v: incremental aggregation over any split = one-shot, exact length, closed form of the aggregate, rejection clauses, completeness under the group premises) + differential correspondence of the model with the C implementation built from the working tree, on secp256k1 and on the EXHAUSTIVE_TEST_ORDER=13 group',
+              trusted=TRUSTED_COMMON + ['aggregate_verifies (completeness) is stated under the explicit premise MathFacts P (p, n prime; group law of the curve; n*G = infinity) and for signatures valid in the lifted form s*G = lift_x(r) + e*P; all other C17 theorems need only 0 < n <= 2^256',
+                                        'order-13 correspondence only feeds points of the order-13 subgroup (outside it the result of secp256k1_ecmult depends on the multiplication algorithm); on secp256k1 the dropped s >= n check is observable only for n = 0 signatures (aggsig = bytes of n), in the order-13 group for every n',
+                                        'scalar_low (EXHAUSTIVE_TEST_ORDER builds): secp256k1_scalar_set_b32 reduces byte by byte and sets overflow iff some running value reaches the order, which is equivalent to value >= order; Model/Base.v sc_of_b32 is used unchanged'])
 
 def runners(chk):
     impl = vlib.build_impl(chk.dir, name='impl')
@@ -275,6 +276,22 @@ def expected(chk, cases, ri):
         if want and a != want and len(chk.violations) < 20:
             chk.violations.append({'kind': 'correspondence', 'class': cls, 'case': line, 'impl': a, 'model': 'expected ' + want + ' (property statement)'})
 
+def asan_pass(chk, cases, ri, label):
+    """thorough tier: the same lines on a clang ASan+UBSan build must give the same result lines (a sanitizer
+    report aborts the driver and shows up as CRASH lines)"""
+    import os
+    try:
+        exe = vlib.build_impl(chk.dir, name='impl_asan', cc='clang', opt='-O1', flags=['-fsanitize=address,undefined', '-fno-sanitize-recover=undefined', '-g'])
+    except vlib.BuildError as e:
+        chk.notes.append('ASan build not available: ' + str(e)[-200:]); return
+    os.environ.setdefault('ASAN_OPTIONS', 'detect_leaks=0')
+    out = vlib.run_cases(exe, [c[0] for c in cases], (), 16)
+    bad = [(c, a, b) for c, a, b in zip(cases, ri, out) if a != b]
+    chk.notes.append('%s: ASan/UBSan build, %d cases, %d differ from the plain build' % (label, len(cases), len(bad)))
+    for (line, cls), a, b in bad[:5]:
+        if len(chk.violations) < 20:
+            chk.violations.append({'kind': 'correspondence', 'class': 'asan_' + cls, 'case': line, 'impl': 'ASan build: ' + b[:600], 'model': 'plain build: ' + a[:300]})
+
 def run(chk):
     impl, model, ie, me = runners(chk)
     impl13, model13, ie13, me13 = runners13(chk)
@@ -282,6 +299,7 @@ def run(chk):
     gen_secp(chk, impl)
     ri, rm = chk.correspond(impl, model, 'halfagg api, secp256k1')
     expected(chk, chk.cases, ri)
+    if not chk.quick(): asan_pass(chk, list(chk.cases), ri, 'halfagg api, secp256k1')
     mark = len(chk.cases)
     jobs = gen_small(chk, impl13, U.ORDER13)
     run_chains(chk, impl13, jobs, 'o13_')
